@@ -755,11 +755,12 @@ class C04(Prop):
     pid = "C04"
     verdict_fn = "verdict04"
     theorems = ["C04_label_table", "C04_transform_is_lookup_qualitative",
-                "C04_transform_is_lookup_quantitative", "C04_missing_values",
-                "C04_float_labels_are_ranks", "C04_float_labels_distinct",
-                "C04_qualitative_str_labels_distinct", "C04_str_labels_distinct_iff",
-                "C04_str_labels_distinct_when_injective", "C04_distinct_groups_distinct_labels",
-                "C04_str_labels_distinct", "C04_two_equal_bounds_still_distinct"]
+                "C04_transform_is_lookup_quantitative", "C04_missing_values", "C04_float_labels_are_ranks",
+                "C04_float_labels_distinct", "C04_qualitative_str_labels_distinct",
+                "C04_str_labels_distinct_iff", "C04_str_labels_distinct_when_injective",
+                "C04_distinct_groups_distinct_labels", "C04_str_labels_distinct",
+                "C04_two_equal_bounds_still_distinct", "C04_values_matched_through_their_string_form",
+                "C04_string_discretizer_total_and_wf"]
     rule = ("one case = one training frame (40-400 rows, 1-3 features: continuous/discrete/close-"
             "boundary quantitative, categorical incl. numeric-looking values, ordinal; NaN share "
             "0-30%) x class (Discretizer, QuantitativeDiscretizer, QualitativeDiscretizer, "
